@@ -5,6 +5,7 @@
 import WS.Model.App
 import WS.Model.Keepalive
 import WS.Spec.KeepaliveSpec
+import WS.Lemmas.Keepalive
 namespace WS.Props.C16
 open WS WS.Model
 
@@ -62,5 +63,114 @@ theorem C16_args_refused_before_connecting (c : App.Cfg) (s : App.St)
 example : App.argsAccepted 3072 (some 2048) = true ∧ App.argsAccepted 2048 (some 2048) = false ∧
     App.argsAccepted 0 (some 5) = true ∧ App.argsAccepted 5 (some 0) = false ∧
     App.argsAccepted (-1) none = false ∧ App.argsAccepted 7 none = true := by decide
+
+open WS.Lemmas.Keepalive in
+/-- **C16_periodic** — for every interval, timeout, arrival pattern, schedule, horizon and fuel: the pings
+    the run sent are exactly the first `n` of the grid 2·iv, 3·iv, 4·iv, … (one per interval, none missing
+    in between, none off the grid), `n` being their number. -/
+theorem C16_periodic (iv to horizon fuel : Nat) (arr : List (Nat × Keepalive.Kind)) (sched : List Bool) :
+    (Keepalive.run iv to horizon fuel arr sched).1 =
+      pingTimes iv (Keepalive.run iv to horizon fuel arr sched).1.length := by
+  have h := pinv_loop iv to horizon fuel (Keepalive.init iv arr sched) (pinv_init iv arr sched)
+  unfold Keepalive.run
+  simp only []
+  generalize (Keepalive.loop iv to horizon fuel (Keepalive.init iv arr sched)).1 = s at h
+  by_cases hf : s.first = true
+  · rw [(h.fst hf).1]; rfl
+  · exact (h.rest (by simpa using hf)).2.1
+
+/- Full-strength target that does NOT hold of the code (finding F12, recorded):
+
+     theorem C16_detect : accepted (iv, to) → peer silent from the ping at T on → a timeout is reported at some
+       r ≤ T + 2·to
+
+   It fails for to < iv ≤ 2·to (`C16_detect_counterexample`): every new ping overwrites `last_ping_tm`.
+   Proved instead: `C16_detect_partial`, the same statement under `iv > 2·to`; nothing else is missing. -/
+
+open WS.Lemmas.Keepalive in
+/-- **C16_detect_partial** (needs `iv > 2·to`) — for every arrival pattern and schedule: if after `k`
+    iterations of the loop (none of which reported or reached the horizon) the ping at `T` has just been
+    sent and the peer is silent from then on (`Window`: last_ping_tm = T, no pong since, only data frames
+    still to come, the loop has not slept past T + to), then the run reports a ping/pong timeout at some
+    tick `r` with `T + to < r ≤ T + 2·to`. -/
+theorem C16_detect_partial (iv to horizon T fuel k : Nat) (arr : List (Nat × Keepalive.Kind)) (sched : List Bool)
+    (h2 : 2 * to < iv) (hto : 0 < to) (hz : T + 2 * to ≤ horizon)
+    (hq : quietFor iv to horizon k (Keepalive.init iv arr sched))
+    (hw : Window iv to T (stepN iv to k (Keepalive.init iv arr sched)))
+    (hf : k + arr.length + 2 ≤ fuel) :
+    ∃ r, (Keepalive.run iv to horizon fuel arr sched).2 = some r ∧ T + to < r ∧ r ≤ T + 2 * to := by
+  unfold Keepalive.run
+  simp only []
+  obtain ⟨n, rfl⟩ : ∃ n, fuel = k + n := ⟨fuel - k, by omega⟩
+  rw [loop_skip iv to horizon k n _ hq]
+  refine detect_in_window iv to horizon T h2 hto hz n _ hw ?_
+  -- the remaining arrivals are at most the scripted ones
+  have hlen : ∀ (j : Nat) (s : Keepalive.St), (stepN iv to j s).arr.length ≤ s.arr.length := by
+    intro j
+    induction j with
+    | zero => intro s; exact Nat.le_refl _
+    | succ i ih =>
+      intro s
+      refine Nat.le_trans (ih _) ?_
+      unfold Keepalive.iter
+      have hc : ∀ s' : Keepalive.St, (Keepalive.consume s').arr.length ≤ s'.arr.length := by
+        intro s'
+        unfold Keepalive.consume
+        split
+        · rename_i heq
+          split
+          · split <;> simp [heq]
+          · exact Nat.le_refl _
+        · exact Nat.le_refl _
+      have ha : ∀ (m : Nat) (s' : Keepalive.St) (t : Nat), (Keepalive.advance iv m s' t).arr = s'.arr := by
+        intro m
+        induction m with
+        | zero => intro s' t; rfl
+        | succ q ihq =>
+          intro s' t
+          rw [Keepalive.advance]
+          split
+          · rw [ihq]; unfold Keepalive.fire; split <;> rfl
+          · split
+            · split
+              · unfold Keepalive.fire; split <;> rfl
+              · rfl
+              · rfl
+            · rfl
+      split
+      · exact hc s
+      · refine Nat.le_trans (hc _) ?_
+        simp [ha]
+  have := hlen k (Keepalive.init iv arr sched)
+  have harr : (Keepalive.init iv arr sched).arr = arr := rfl
+  rw [harr] at this
+  split <;> omega
+
+/-- **C16_detect_counterexample** (F12) — iv = 3 s, to = 2 s (an accepted pair), one data frame at 1.8 s,
+    the peer never answers: pings at 6 s and 9 s, the timeout is reported at 11.8 s, later than
+    6 s + 2·2 s. -/
+theorem C16_detect_counterexample :
+    App.argsAccepted 3072 (some 2048) = true ∧
+    Keepalive.run 3072 2048 20480 100 [(1843, .data)] [] = ([6144, 9216], some 12083) ∧
+    12083 > 6144 + 2 * 2048 := by
+  decide
+
+/-- the same on the full application model: the trace of `run_forever` (F12) -/
+example :
+    let c : App.Cfg := { has := fun cb => cb = .onError, plan := fun _ => [], iv := 3072, to := some 2048,
+                         payload := [], reconnect := 0, ssl := false, horizon := 20480, fuel := 100 }
+    let tr := (App.runForever c { dials := [.established [⟨1843, false, .message 1 [0x78] false⟩]] }).trace
+    (tr.filterMap fun te => match te.2 with
+      | .wrote 9 _ => some (te.1, "ping") | .cb .onError [.exn .timeout] => some (te.1, "timeout") | _ => none) =
+      [(6144, "ping"), (9216, "ping"), (12083, "timeout")] := by
+  decide
+
+/- F12, second part (recorded): a responsive peer that also sends an unsolicited pong later than `to` after
+   the last ping is reported (`last_pong_tm - last_ping_tm > ping_timeout`). -/
+/-- **C16_no_false_positive_counterexample** (F12) — iv = 2 s, to = 1 s; the peer answers the ping sent at
+    4 s one tick later and sends one more, unsolicited, pong at 5 s + 1 tick: reported at that tick. -/
+theorem C16_no_false_positive_counterexample :
+    Keepalive.run 2048 1024 12287 100 [(4097, .pong), (5121, .pong)] [] = ([4096], some 5121) := by
+  decide
 
 end WS.Props.C16
